@@ -1,11 +1,29 @@
-import os
+import os, re
 from checks.generic import standard
 
 THEOREMS = ["c06_gate_sound", "c06_identity_real", "c06_never_denied", "c06_deny_no_position", "c06_never_outside", "c06_never_outside_blocks", "c06_never_outside_numeric",
+            "c06_obs_gate_is_spec", "c06_obs_route_is_spec", "c06_obs_identity_is_spec",
             "c06_cookie_window", "c06_cookie_outside_window_refused", "c06_grace_refuted",
             "c06_basic_only_without_cookie", "c06_webui_without_password", "c06_csrf",
             "c06_routes", "c06_public_no_effect", "c06_csrf_partial", "c06_csrf_nonget",
             "c06_get_state_changers", "c06_get_effects_refuted", "c06_old_manage_refuted", "c06_old_register_finish_refuted", "c06_old_tls_refuted"]
+
+def _field(line, name, default="?"):
+    m = re.search(r"\b%s=(\S+)" % name, line or "")
+    return m.group(1) if m else default
+
+# keys of the model oracle: the defect shape (handler, credential class), never incidental values
+def _gate_key(line):
+    return "C06:model-oracle:gate-admits:%s" % _field(line, "class")
+
+def _route_key(line):
+    return "C06:model-oracle:route:%s:%s" % (_field(line, "handler"), _field(line, "class"))
+
+GATE_WHAT = ("checkAuth admitted an identity / level on this case although the conclusion of c06_gate_sound "
+             "(the request proves that identity at that level, the level has a bit of the mask, no foreign origin on a non-GET) "
+             "evaluates to false on the observation (gate_conclusion, proved equivalent to the statement)")
+ROUTE_WHAT = ("a protected effect was observed, or an identity was logged, on this case although the request is not accepted by the "
+              "route's declared gate (acceptsb / identity_okb evaluated on the observation, proved equivalent to the conclusion of c06_routes)")
 
 def run(ctx):
     return standard(ctx,
@@ -25,6 +43,10 @@ def run(ctx):
         assumptions=["TLS chain verification is done by crypto/tls; the harness supplies VerifiedChains built from certificates really signed by the state's CA keys",
                      "the password attempt limiter is configured wide open (limiter_ok = true in every case)"],
         unproved=["handler steps after admission (parameter validation, storage) are one environment bit per request in the route model; the effects of /webauthn/AuthFinish, /userinfo, the federated callback and Okta poll approval are not provoked by the harness (no provider fake), only their refusal is observed; /u2f/RegisterResponse, /webauthn/RegisterFinish, /u2f/SignResponse, /totp/ValidateNew and /idp/oauth2/token are driven to their effect with genuine material (software token, pending TOTP secret, an authorization code issued by the authorization endpoint)"],
+        model_oracles=[("c06_gate_violating", _gate_key, GATE_WHAT, "CasesC06_gate.idx"),
+                       ("c06_route_violating", _route_key, ROUTE_WHAT, "CasesC06_route.idx"),
+                       ("c06_window_gate_violating", _gate_key, GATE_WHAT, "CasesC06_wgate.idx"),
+                       ("c06_window_route_violating", _route_key, ROUTE_WHAT, "CasesC06_wroute.idx")],
         timeout=1500,
         # the probes restore the profile tables thousands of times: keep the scratch database off the disk
         env=({"TMPDIR": "/dev/shm"} if os.path.isdir("/dev/shm") and os.access("/dev/shm", os.W_OK) else None))
